@@ -48,3 +48,4 @@ LEVEL_NOTE = ("Trusted: Lean kernel; Model/Listener.lean (transcription of the i
               "re-notification when an already incompatible endpoint changes its QoS to another incompatible one.")
 TECHNIQUE = "Lean 4 theorems over all mask placements (dispatch = first enabled level) + differential correspondence through the deterministic simulator"
 DESIGN_REF = "DESIGN.md section 5 C33"
+CLAIMED = False   # the listener model is being re-aligned with main (the D-listen-2 repair was withdrawn: it broke baseline tests)
